@@ -372,14 +372,14 @@ func explore(states []St, partners []St, level int, dr *drift) {
 	mc.Par(len(states), func(i int) {
 		s := states[i]
 		R.T(1)
-		if m := runObs(s.desc); m != "" {
+		if m := mc.Safe(func() string { return runObs(s.desc) }); m != "" {
 			R.Mismatch(fmt.Sprintf("point/observers/level%d", level), "obs", m, mc.D{"p": s.desc})
 		}
 		for oi := range uops {
 			op := &uops[oi]
 			for _, al := range []bool{false, true} {
 				R.T(1)
-				if m := runUn(op, s.desc, al); m != "" {
+				if m := mc.Safe(func() string { return runUn(op, s.desc, al) }); m != "" {
 					R.Mismatch(fmt.Sprintf("point/%s/aliased=%v", op.name, al), "un", m, mc.D{"op": op.name, "p": s.desc, "aliased": al})
 				}
 			}
@@ -395,7 +395,7 @@ func explore(states []St, partners []St, level int, dr *drift) {
 				}
 				for _, al := range []bool{false, true} {
 					R.T(1)
-					if m := runMixed(s.desc, q.abs, al); m != "" {
+					if m := mc.Safe(func() string { return runMixed(s.desc, q.abs, al) }); m != "" {
 						R.Mismatch(fmt.Sprintf("point/addMixed/%s/aliased=%v", relation(s.abs, q.abs), al), "mixed", m, mc.D{"p": s.desc, "q": lib.PtHex(q.abs), "aliased": al})
 					}
 				}
@@ -428,14 +428,14 @@ func explore(states []St, partners []St, level int, dr *drift) {
 							continue // ConditionalSelect: level 1 only; all alias patterns only on every 4th state
 						}
 						t++
-						if m := runBin(op, o[0].desc, o[1].desc, al); m != "" {
+						if m := mc.Safe(func() string { return runBin(op, o[0].desc, o[1].desc, al) }); m != "" {
 							R.Mismatch(fmt.Sprintf("point/%s/%s/%s", op.name, binAliases[al], relation(o[0].abs, o[1].abs)), "bin", m,
 								mc.D{"op": op.name, "p": o[0].desc, "q": o[1].desc, "alias": al, "alias_name": binAliases[al], "relation": relation(o[0].abs, o[1].abs)})
 						}
 					}
 				}
 				t++
-				if m := runEqual(o[0].desc, o[1].desc); m != "" {
+				if m := mc.Safe(func() string { return runEqual(o[0].desc, o[1].desc) }); m != "" {
 					R.Mismatch("point/Equal/"+relation(o[0].abs, o[1].abs), "equal", m, mc.D{"p": o[0].desc, "q": o[1].desc})
 				}
 				if dr != nil {
